@@ -431,7 +431,9 @@ func ruleF8a(c *Ctx) {
 		n++
 		key := shortName(f) + "|matchAnyImm of the first table query"
 		if !ok {
-			c.fail("F8a", key, c.L.Pos(pos), "undecided: flag is not a constant")
+			// a different key from the constant-flag case: a known finding about a constant
+			// flag must not hide a flag that has since become data-dependent
+			c.fail("F8a", key+" is computed", c.L.Pos(pos), "undecided: the matchAnyImm flag of the first table query is not a constant, so the emitter's choice of form depends on the operand while pass 1 sized the statement with a fixed flag")
 			continue
 		}
 		c.check(got == want, "F8a", key, c.L.Pos(pos), fmt.Sprintf("pass 1 sizes with matchAnyImm=%v first, this emitter selects with matchAnyImm=%v first: the two can pick encodings of different length", want == 1, got == 1))
